@@ -40,6 +40,65 @@ class LastOp(Rule):
         return st
 
 
+def _place_ty(b, pl):
+    ty = b.lty(pl['l'])
+    for p in pl['p']:
+        k = p['k']
+        if k == 'deref':
+            a = ty.get('args') or []
+            if not a:
+                return {}
+            ty = b.ty(a[0])
+        elif k == 'field':
+            if p.get('ty') is None:
+                return {}
+            ty = b.ty(p['ty'])
+        elif k != 'downcast':
+            return {}
+    return ty
+
+
+def _classify_ret(t):
+    """class of a value returned by a poll function: Err / End (Ready(None)) / Item (Ready(Some(Ok))) / Pending / Other"""
+    nodes = list(walk(t))
+    if any(n[0] == 'agg' and n[1] == 'core::result::Result' and n[2] == 'Err' for n in nodes) or \
+            any(n[0] == 'call' and n[1].endswith('from_residual') for n in nodes):
+        return 'Err'
+    if isinstance(t, tuple) and t[0] == 'agg' and t[2] == 'Pending':
+        return 'Pending'
+    if any(n[0] == 'agg' and n[1] == 'core::option::Option' and n[2] == 'None' for n in nodes):
+        return 'End'
+    if any(n[0] == 'agg' and n[1] == 'core::result::Result' and n[2] == 'Ok' for n in nodes):
+        return 'Item'
+    return 'Other'
+
+
+def exit_classes_from(b, T, start):
+    from ..paths import Explorer, Rule
+
+    class R(Rule):
+        init = 'Unassigned'
+
+        def __init__(self):
+            self.out = set()
+
+        def on_stmt(self, b_, bi, st, state):
+            if st['k'] == 'assign' and not st['pl']['p'] and st['pl']['l'] == 0:
+                return _classify_ret(simplify(T.of_rvalue(b_, st['rv'], 0)))
+            return state
+
+        def on_term(self, b_, bi, t, state):
+            if t['k'] == 'call' and not t['dest']['p'] and t['dest']['l'] == 0:
+                return 'Err' if 'q' in t['callee'] and callee_q(t).endswith('from_residual') else 'Other'
+            return state
+
+        def on_exit(self, b_, bi, state, outcome):
+            self.out.add(state)
+    r = R()
+    Explorer(b, r, start=start).run()
+    return r.out
+
+
 def run(facts, cg):
     T = Terms(facts)
     instances, findings = [], []
@@ -79,9 +138,30 @@ def run(facts, cg):
                         t = simplify(T.of_operand(b, st['rv']['ops'][0]))
                         if any(n_[0] == 'agg' and n_[2] == 'UnexpectedEnd' for n_ in walk(t)):
                             ok = True
-            instances.append({'rule': 'R-EARLYEND', 'function': b.q, 'early_end_is_error': ok})
-            if not ok:
+            # path form: when the body stream of the current request ends (`None`) while the reader still waits for bytes of a
+            # chunk, every way out is an error item - never the end of the chunk stream, never a chunk
+            ends = []
+            for sbi in b.live:
+                sw = b.blocks[sbi]['term']
+                if sw['k'] != 'switch' or sw['op']['k'] not in ('copy', 'move'):
+                    continue
+                for d_ in b.defs().get(sw['op']['pl']['l'], []):
+                    if d_[0] == 'assign' and d_[1]['rv']['k'] == 'discr':
+                        pl = d_[1]['rv']['pl']
+                        pty = _place_ty(b, pl)
+                        term = simplify(T.of_place(b, pl))
+                        if pty.get('adt') == 'core::option::Option' and (has_call(term, 'poll_next_unpin') or has_call(term, 'Stream::poll_next')) \
+                                and 0 in sw['vals']:
+                            ends.append((sbi, sw['targets'][sw['vals'].index(0)]))
+            classes = set()
+            for sbi, tgt in ends:
+                classes |= exit_classes_from(b, T, tgt)
+            instances.append({'rule': 'R-EARLYEND', 'function': b.q, 'early_end_is_error': ok, 'body_end_edges': len(ends), 'exits_after_body_end': sorted(classes)})
+            if not ok or not ends:
                 finding('R-EARLYEND', b.q, 'http-chunks', 'an HTTP body that ends before the chunk is complete is not turned into UnexpectedEnd')
+            elif classes - {'Err'}:
+                finding('R-EARLYEND', b.q, 'http-chunks-not-always-error', 'when the HTTP body ends while chunk data is still expected the reader can leave with %s '
+                        'instead of an error: the remaining chunks are silently dropped' % sorted(classes - {'Err'}))
         if b.q.endswith('::read_at::{closure#0}') and 'http_reader' in b.id:
             ok = any(st['k'] == 'assign' and st['rv']['k'] == 'agg' and st['rv'].get('vname') == 'UnexpectedEnd'
                      for bi in b.live for st in b.blocks[bi]['stmts'])
